@@ -8,6 +8,7 @@ from ..deck import Deck
 from ..runner import Scn, verdict, sha, Vacuous
 
 ID = 'C12'
+DECORATE = True
 LEVEL = 'model_checking'
 RULE = ('E1 enumeration: 3-5 level-0 cells (numbers not in card order); per cell the importance source in '
         '{IMP:N=v, IMP:N,P=v, IMP:N=v IMP:P=w, IMP:P=w IMP:N=v, none}; data cards imp:n (and optionally imp:p) '
